@@ -183,7 +183,13 @@ func (cx *ctx) runHistory(sc *chainx.Scenario, fam famSpec, v nodeVariant, h []i
 	if c.mod == nil {
 		return nil, fmt.Errorf("state module is not *stateroot.Module")
 	}
-	c.ids = n.ContractIDs(c.w.MaxID + 2)
+	// all ids that may ever hold storage: natives (some are deployed by a
+	// hardfork later than genesis) and deployed contracts
+	for id := int32(-16); id <= c.w.MaxID+2; id++ {
+		if id != 0 {
+			c.ids = append(c.ids, id)
+		}
+	}
 	committee := n.Committee.ScriptHash()
 	take := func() error {
 		height := n.Height()
@@ -715,7 +721,9 @@ func (c *run) historic(s *snap, retained bool) {
 		switch {
 		case pan != nil:
 			if retained {
-				c.fail("O4-historic", q.Name, s, call, fmt.Sprintf("panic: %v", pan), q.Res)
+				msg := fmt.Sprint(pan)
+				c.fail("O4-historic-panic", msg[:min(len(msg), 60)], s, call, "panic: "+msg, q.Res)
+				return // the same panic for every script of this height
 			} else {
 				c.cx.r.Outcome("nonretained:historic:panic")
 			}
@@ -874,7 +882,7 @@ func TestCheck(t *testing.T) {
 		"historic_invocations_halted":    int(c.histInvHalt.Get()),
 		"rule":                           "every history = preamble + depth blocks of the alphabet (all K^depth) per family; state = (family, node variant, height, state root); exhaustive O1 once per distinct (family, root), the other oracles at every height of every history",
 	}, []string{
-		"map_h is read from the live node through Blockchain.SeekStorage over all native ids and ids 1..6 (the flat storage, not the trie)",
+		"map_h is read from the live node through Blockchain.SeekStorage over ids -16..-1 and 1..6 (the flat storage, not the trie)",
 		"FindStates/SeekStates/TrieStore.Seek range semantics are taken from their doc comments (ordered map: forwards = keys >= prefix+start ascending, backwards = keys <= prefix+start descending); for an empty FindStates result both ErrNotFound and an empty list are accepted",
 		"pruned variants (RemoveUntraceableBlocks+GC after every flush, KeepOnlyLatestState) are held to O1-O3 for heights >= height-MaxTraceableBlocks (latest: the top height); below that an error / panic / early end of a listing or data equal to map_h is accepted, different data is not; historic invocations on them may be refused at any height (docs/rpc.md: undefined with RemoveUntraceableBlocks, unsupported with KeepOnlyLatestState) but must not HALT with other data",
 		"historic invocations are compared on VM state, stack, gas consumed and fault message; scripts do not read time",
